@@ -129,3 +129,12 @@ Definition push_hist (h : list (nat * res)) (i : nat) (r : option res) : list (n
 (* uniqueness of pop owners survives when the moved thread owns nothing new *)
 Definition Uniq (l : list pc) : Prop :=
   forall a b p1 p2 n, a <> b -> nth_error l a = Some p1 -> nth_error l b = Some p2 -> owns p1 = Some n -> owns p2 <> Some n.
+
+(* ---- the sequential states the correspondence run starts from ---- *)
+Definition pre_val (j : nat) : Z := 9001 + Z.of_nat j.
+(* the sequential state after npre pushes: nodes 1..npre hold the values, tail = npre *)
+Definition seq_state (npre n : nat) : config :=
+  let vs := map pre_val (seq 0 npre) in
+  {| sh := {| vals := None :: map Some vs; head := 0; tail := npre; len := Z.of_nat npre; q := vs; lin := map LPush vs |};
+     ths := repeat Idle n; hist := [] |}.
+
